@@ -140,15 +140,27 @@ class World(StackWorld):
         if m == "returns":
             return None
         if m == "raises":
+            self.main_failed_vids = tuple(self.main_failed_vids) + (getattr(session, "_vid", None),)
             raise RuntimeError("main fails")
         f = self.fw.new_future(self)
         self.main_futs.append((f, m, len(self.main_calls)))
         return f
 
+    normal_leave_seen = None
+    main_failed_vids = ()
+
     def make_listener(self, name):
         def listener(session, *a, **k):
             self.events.append((name, getattr(session, "_vid", None)))
             self.run.log("component-event", name, getattr(session, "_vid", None))
+            if name == "leave" and a and getattr(a[0], "reason", None) in ("wamp.close.normal", "wamp.close.goodbye_and_out"):
+                vid = getattr(session, "_vid", None)
+                # a session that leaves the realm normally ends the component successfully - unless its connection
+                # had been given up before (main failed) or start()'s result was decided already
+                if self.normal_leave_seen is None and vid not in self.main_failed_vids and self.done.state()[0] == "pending" \
+                        and self.created_sessions and vid == self.created_sessions[-1]._vid:
+                    self.normal_leave_seen = (vid, self.initiated, self.now())
+                    self.run.probe("normal-leave-seen")
         return listener
 
     def on_connectfailure(self, comp, exc):
@@ -421,6 +433,7 @@ class World(StackWorld):
                 # complete, cannot change the outcome any more)
                 self.main_failed = True
                 self.main_failed_at_call = ncall
+            self.main_failed_vids = tuple(self.main_failed_vids) + (getattr(self.main_calls[ncall - 1], "_vid", None),)
             self.fw.call(self, self.fw.reject_future, f, RuntimeError("main fails late"))
         else:
             self.fw.call(self, self.fw.resolve_future, f, None)
@@ -534,6 +547,15 @@ class World(StackWorld):
             if not (main_failed or exhausted or self.any_unlimited_exhausted()):
                 run.violate("C14.done-once", "failed-without-cause:%s" % type(st[1]).__name__, "%r attempts=%r" % (
                     st[1], [(a.idx, a.outcome) for a in self.attempts]))
+        # --- a normal leave finishes the component: successfully, and without a further attempt
+        if self.normal_leave_seen is not None:
+            vid, initiated, t_leave = self.normal_leave_seen
+            if st[0] != "ok":
+                run.violate("C14.done-once", "normal-leave-did-not-finish-the-component:%s" % st[0],
+                            "session %s left normally at %.3f after %d attempts; start() is %s; attempts now %d" % (
+                                vid, t_leave, initiated, st[0], self.initiated))
+            elif self.initiated > initiated:
+                run.violate("C14.done-once", "attempt-initiated-after-normal-leave", "%d -> %d" % (initiated, self.initiated))
         # --- listeners fire for every session the component created: whatever a session fires at its own
         # listeners must also reach the component-level listeners, for the same session
         from collections import Counter
